@@ -466,6 +466,94 @@ def gen_str(rng, ok=True):
     return rng.choice(pool)
 
 
+NONFINITE = [{"f": "7ff8000000000000"}, {"f": "7ff0000000000000"}, {"f": "fff0000000000000"}, {"f": "7ff0000000000001"}]
+
+
+def gen_json_faulty(rng, depth=0):
+    """a document for a serde_json::Value target with non-finite floats (the only faults such a target has) at several
+    nested positions: exercises the error accumulation of `Deserr for serde_json::Value` (only an order-preserving
+    value source can carry them)"""
+    r = rng.random()
+    if depth > 2 or r < 0.35:
+        return copy.deepcopy(rng.choice(NONFINITE + NONFINITE + [None, True, wi(7), "s", {"f": "3ff8000000000000"}]))
+    if r < 0.7:
+        return [gen_json_faulty(rng, depth + 1) for _ in range(rng.randint(1, 4))]
+    keys = rng.sample(["a", "b", "k", "z", "The", "0"], rng.randint(1, 4))
+    return {"m": [[k, gen_json_faulty(rng, depth + 1)] for k in keys]}
+
+
+def contains_json(t):
+    if t[0] == "json":
+        return True
+    if t[0] == "item":
+        return any(contains_json(x) for x in t[1].subtypes())
+    return any(contains_json(x) for x in t[1:] if isinstance(x, tuple))
+
+
+def json_fault_variants(t, p, rng):
+    """payloads for a type containing a serde_json::Value position: the valid payload with that position replaced"""
+    out = []
+    if t[0] == "json":
+        return [gen_json_faulty(rng) for _ in range(3)]
+    if t[0] in ("vec", "hashset", "btreeset") and t[1][0] == "json":
+        return [[gen_json_faulty(rng) for _ in range(rng.randint(1, 3))] for _ in range(2)]
+    if t[0] == "option" and t[1][0] == "json":
+        return [gen_json_faulty(rng) for _ in range(2)]
+    if t[0] == "map" and t[3][0] == "json":
+        return [{"m": [[k, gen_json_faulty(rng)] for k in rng.sample(["a", "b", "c"], rng.randint(1, 3))]} for _ in range(2)]
+    if t[0] == "item" and isinstance(p, dict) and "m" in p and t[1].kind == "struct" and not (t[1].get("from") or t[1].get("try_from")):
+        for f, key in field_keys(t[1].fields, item_ra(t[1])):
+            if f.deser_ty()[0] == "json":
+                q = copy.deepcopy(p)
+                q["m"] = [m for m in q["m"] if m[0] != key] + [[key, gen_json_faulty(rng)]]
+                out.append(q)
+    return out
+
+
+def contains_parsed_map(t):
+    """a HashMap / BTreeMap whose key type is parsed from the member's key (can fail)"""
+    if t[0] == "map" and t[2] != "String":
+        return True
+    if t[0] == "item":
+        return any(contains_parsed_map(x) for x in t[1].subtypes())
+    return any(contains_parsed_map(x) for x in t[1:] if isinstance(x, tuple))
+
+
+def map_fault_payload(t, rng, depth=0):
+    """a payload for type t in which every map with a parsed key type gets several members, a mix of good / unparsable keys
+    and good / faulty values in random order (the key report, the value hand-over and what follows a stop on either)"""
+    k = t[0]
+    if k == "map":
+        n = rng.randint(2, 5)
+        ms, seen = [], set()
+        for _ in range(n):
+            bad_key = t[2] != "String" and rng.random() < 0.45
+            key = gen_key(t[2], rng, valid=not bad_key) if t[2] != "String" else gen_str(rng)
+            if key in seen:
+                continue
+            seen.add(key)
+            val = copy.deepcopy(rng.choice(WRONG)) if rng.random() < 0.4 else map_fault_payload(t[3], rng, depth + 1)
+            ms.append([key, val])
+        return {"m": ms}
+    if k in ("vec", "hashset", "btreeset"):
+        return [map_fault_payload(t[1], rng, depth + 1) for _ in range(rng.randint(1, 2))]
+    if k == "array":
+        return [map_fault_payload(t[2], rng, depth + 1) for _ in range(t[1])]
+    if k == "tuple":
+        return [map_fault_payload(x, rng, depth + 1) for x in t[1:]]
+    if k in ("option", "box", "w"):
+        return map_fault_payload(t[1], rng, depth + 1)
+    if k == "item":
+        it = t[1]
+        if it.kind == "struct" and not (it.get("from") or it.get("try_from")):
+            ms = []
+            for f, key in field_keys(it.fields, item_ra(it)):
+                ms.append([key, map_fault_payload(f.deser_ty(), rng, depth + 1) if contains_parsed_map(f.deser_ty()) else gen_valid(f.deser_ty(), rng, depth + 1)])
+            rng.shuffle(ms)
+            return {"m": ms}
+    return gen_valid(t, rng, depth)
+
+
 def gen_json(rng, depth=0):
     r = rng.random()
     if depth > 2 or r < 0.5:
@@ -559,7 +647,8 @@ def gen_item_valid(it, rng, depth):
 
 
 WRONG = [None, True, {"i": "1"}, {"i": "1000"}, {"n": "-3"}, {"f": "3ff8000000000000"}, "str", [], [{"i": "1"}], {"m": []}, {"m": [["a", None]]},
-         {"i": "18446744073709551615"}, {"n": "-9223372036854775808"}, "!bad", {"i": "3"}, [{"i": "1"}, {"i": "2"}, {"i": "3"}]]
+         {"i": "18446744073709551615"}, {"n": "-9223372036854775808"}, "!bad", {"i": "3"}, [{"i": "1"}, {"i": "2"}, {"i": "3"}],
+         {"f": "7ff8000000000000"}, [{"f": "7ff0000000000000"}, {"i": "1"}, {"f": "fff0000000000000"}], {"m": [["a", {"f": "7ff8000000000000"}], ["b", [{"f": "7ff0000000000000"}]]]}]
 
 
 def positions(p, path=()):
@@ -715,6 +804,15 @@ def gen_payloads(entry, rng, n, max_faults=3):
         for _ in range(k):
             p = mutate_once(p, rng, extra)
         out.append((p, k))
+    # fault families that random mutation reaches too rarely
+    if contains_json(entry.ty):
+        # serde_json::Value positions: their only faults are non-finite floats (order-preserving source only)
+        for q in json_fault_variants(entry.ty, gen_valid(entry.ty, rng), rng):
+            out.append((q, -1))
+    if contains_parsed_map(entry.ty):
+        # maps whose keys are parsed: unparsable keys and faulty values mixed, in any order
+        for _ in range(3):
+            out.append((map_fault_payload(entry.ty, rng), -1))
     return out
 
 
